@@ -315,6 +315,28 @@ def run_b_case(r, seed, name, label, cfg, prof, deep=False):
             r.v(PROPERTY, name, 'array-case-raises', '%s:%s' % (core.exc_site(e), type(e).__name__), case, 'repeated setups and searches succeed', core.exc_text(e))
             return
         r.count('deep-array-cases')
+        if name == 'DP17.Pi':
+            # inside a bucket: two one-posting keywords that landed in the same bucket of level 0 (2 slots, so the bucket is exactly
+            # full) must not always sit in the order the database supplied them (a coin per pair and setup: 40 pairs all in input
+            # order has probability 2^-40)
+            order = {w: i for i, w in enumerate(db)}
+            pairs = inorder = 0
+            for q in ps:
+                by_bucket = {}
+                for w in db:
+                    lg, pos = q[w]
+                    if len(db[w]) == 1 and len(lg) >= 1 and len(pos) == 1:
+                        by_bucket.setdefault(lg[0], []).append((pos[0], order[w]))
+                for members in by_bucket.values():
+                    if len(members) == 2:
+                        pairs += 1
+                        (p_a, o_a), (p_b, o_b) = members
+                        if (p_a < p_b) == (o_a < o_b):
+                            inorder += 1
+            r.count('dp17-full-bucket-pairs', pairs)
+            if pairs >= 40 and inorder in (0, pairs):
+                r.v(PROPERTY, name, 'in-bucket-order-follows-input', 'full-bucket', dict(case, pairs=pairs),
+                    'entries of an exactly full bucket in random order', 'all %d co-located pairs in %s order' % (pairs, 'input' if inorder else 'reverse input'))
         for w in db:
             seqs = [(q[w][0] if name == 'DP17.Pi' else q[w]) for q in ps]
             if len({len(x) for x in seqs}) != 1:
